@@ -3,6 +3,14 @@
 import json
 
 CLAIMS = {
+ "C06": dict(cat="model_checking", design="6 C06",
+  text="All operator pairs and triples in all shapes, all unary placements, all pairs of 47 primary-expression forms under every operator and every statement form are printed with the minimal parentheses of the documented table, with every choice of <=2 redundant parentheses and <=2 layout insertions (space, tab, newline, blank line, comment) at the grammar's admissible sites, and parsed by the real parser; the parsed tree, converted to the generator's own tree type, must equal the generated tree. 1.7 million texts in the quick tier, enumerated completely.",
+  note="Reference precedence = documented table extended with unary and `in` as gram.y and the IDE grammar agree. Layout sites are exactly those the statement names.",
+  tech="bounded-exhaustive enumeration of syntax trees x parenthesisations x layouts through the real parser (round-trip oracle)"),
+ "C17": dict(cat="model_checking", design="6 C17",
+  text="Every position field of every node kind over the C06 generator (with layout variants and a multi-byte first line) is compared with the printer's token offset and an independent line/column scan; the two lookup routines are compared on all 9841 texts <=8 over {a, newline, e-acute} at every offset; 31 run-time faults x 16 roles x 4 nesting places must report script name, an offset inside the failing statement and consistent line/column; all error chains of length 1..4 are checked for rendering, JSON round trip and copy isolation.",
+  note="Load-time error positions are decided in C08 with the same oracle. Columns are byte columns as the statement says.",
+  tech="bounded-exhaustive enumeration of programs/texts/offsets/chains on the real parser and error types with an offset oracle from the printer"),
  "C03": dict(cat="model_checking", design="6 C03",
   text="All pairs of 26 truthiness-class representatives in if/elif/else and as loop conditions, 17 iterables x 4 loop-variable names x 9 bodies, and every program of total size <=3 (quick) / <=4 (thorough) statements over the statement grammar (the 8 for shapes, for-in, break/continue, assignments to new, outer and shadowing names) are run on the real interpreter and on the reference interpreter; the ordered probe trace and the final point must agree. The families are indexable and enumerated completely.",
   note="Non-terminating programs are cut by a signal and compared as trace prefixes. Map iteration order is tried both ways for 2-key maps; larger maps are not generated.",
